@@ -139,11 +139,24 @@ def streams(tier, rng, P, only=None, cases=None):
             pre = rng.choice(["l4 ", "l8 q100 ", "o4 l4 "])
             sa = pre + head + " " + " ".join(a); sb = pre + " ".join(b)
             cs.append(dict(req="compile2 %s %s" % (hx(sa), hx(sb)), src=sa, src2=sb, show="%s   vs   %s" % (sa, sb), key="ch%d" % i))
+        # a plain command inside Sub{ } cancels the reservation for good: the notes after the block are those of the program without it
+        for i in range(300 if big else 60):
+            x = rng.choice("vqt")
+            plain = {"v": "v%d" % rng.randint(1, 127), "q": "q%d" % rng.randint(1, 100), "t": "t%d" % rng.randint(-5, 9)}[x]
+            vals = ",".join(str(rng.randint(1, 100)) for _ in range(rng.randint(2, 4)))
+            res = rng.choice(["%s.onNote(%s)" % (x, vals), "%s.onCycle(%s)" % (x, vals)] + (["v.onTime(%d,%d,%d)" % (rng.randint(0, 127), rng.randint(0, 127), rng.choice([96, 384, 768]))] if x == "v" else []))
+            inner = " ".join(rng.choice("cdefgab") for _ in range(rng.randrange(1, 3)))
+            after = " ".join(rng.choice("cdefgab") for _ in range(rng.randrange(2, 5)))
+            blk = rng.choice(["Sub{ %s %s }", "Sub{ %s %s } r", "{ %s %s }4", "[1 %s %s ]"]) % (plain, inner)
+            sa = "l4 %s %s %s" % (res, blk, after); sb = "l4 %s %s" % (blk, after)
+            cs.append(dict(req="compile2 %s %s" % (hx(sa), hx(sb)), src=sa, src2=sb, show="%s   vs   %s" % (sa, sb), key="sc%d" % i, cancel=True))
         return cs
     def ch_judge(c, impl, m):
         st, f = impl
         if st != "ok": return ("violation", "reservation program did not compile normally: " + st)
-        if f["bin1"] != f["bin2"]: return ("violation", "a reserved velocity list over chords is not the program with the velocities written at the notes: %s vs %s" % (c["src"][:120], c["src2"][:120]))
+        if f["bin1"] != f["bin2"]:
+            if c.get("cancel"): return ("violation", "a reservation cancelled by a plain command inside a block still acts after the block: %s vs %s" % (c["src"][:120], c["src2"][:120]))
+            return ("violation", "a reserved velocity list over chords is not the program with the velocities written at the notes: %s vs %s" % (c["src"][:120], c["src2"][:120]))
         return None
     s2 = Stream("chordres", cases if (cases and only == "chordres") else mk_ch(), lambda c, st, f: [], ch_judge, lambda c, i, m: i[1].get("bin1") if i[0] == "ok" else None,
                 "velocity reservations over chords vs explicit velocities")
